@@ -24,6 +24,7 @@ CONSTANTS
 CHECK_DEADLOCK FALSE
 """
 INV = "INVARIANTS WellDefined TablesAgree"
+INV_WD = "INVARIANTS WellDefined"      # TablesAgree is a per-route / per-host fact: checked where every route and host occurs
 WORKERS = 8
 FILES = ["route/common_test.go", "route/c03_test.go"]
 
@@ -32,7 +33,7 @@ UNI = {"full": ("MCAllPats", "MCAllPaths"), "core": ("MCCorePats", "MCCorePaths"
 
 
 def cfg(spec, n, uni="full", inv=False):
-    return CFG % dict(spec=spec, n=n, pats=UNI[uni][0], paths=UNI[uni][1], inv=INV if inv else "")
+    return CFG % dict(spec=spec, n=n, pats=UNI[uni][0], paths=UNI[uni][1], inv=(inv if isinstance(inv, str) else INV) if inv else "")
 
 
 def count_lines(path):
@@ -65,9 +66,11 @@ def run(ctx):
     # 1. well-definedness of the declarative choice on the model
     mcs = [("core<=2", cfg("QSpec", 2, "core", inv=True), 300)]
     if ctx.thorough:
-        mcs = [("full<=2", cfg("QSpec", 2, "full", inv=True), 1500), ("mini<=3", cfg("QSpec", 3, "mini", inv=True), 1500)]
+        mcs = [("full<=1", cfg("QSpec", 1, "full", inv=True), 600), ("core<=2", cfg("QSpec", 2, "core", inv=True), 600),
+               ("full<=2", cfg("QSpec", 2, "full", inv=INV_WD), 1500), ("mini<=3", cfg("QSpec", 3, "mini", inv=INV_WD), 1500)]
     for name, text, to in mcs:
-        mc = ctx.tlc("Match_MC", cfg_text=text, workers=WORKERS, timeout=to, coverage=ctx.thorough)
+        # action coverage (same two actions in every configuration) is taken on the smaller runs
+        mc = ctx.tlc("Match_MC", cfg_text=text, workers=WORKERS, timeout=to, coverage=ctx.thorough and name != "full<=2")
         ctx.log("MC %s: %d generated, %d distinct, %.0fs" % (name, mc.generated, mc.distinct, mc.wall))
         if not ctx.need_tlc_ok(mc, "Match MC " + name):
             return
@@ -87,10 +90,10 @@ def run(ctx):
         if not ctx.need_tlc_ok(g, "Match Gen " + name):
             return
         ctx.cover("gen " + name, states=g.distinct, transitions=g.generated)
-    sims = [(3, ctx.pick(300, 2000))]
+    sims = [(3, ctx.pick(300, 1500))]
     if ctx.thorough:
-        sims.append((4, 2000))
-        sims.append((6, 700))
+        sims.append((4, 1500))
+        sims.append((6, 500))
     for n, num in sims:
         before = count_lines(cases)
         sim = ctx.tlc("Match_MC", cfg_text=cfg("SimSpec", n), simulate=num, depth=n + 3, seed=ctx.seed,
@@ -123,7 +126,7 @@ def run(ctx):
     # 3b. gRPC leg (synthetic request built by GrpcProxyInterceptor.lookup): plain-connection
     #     transitions, a seed-selected slice in the quick tier
     g = ctx.gotest("proxy", ["proxy/c03_grpc_test.go"], "^TestVerifC03Grpc$",
-                   env={"VERIF_IN": cases, "VERIF_GRPC_EVERY": ctx.pick(8, 1)}, timeout=900)
+                   env={"VERIF_IN": cases, "VERIF_GRPC_EVERY": ctx.pick(8, 2)}, timeout=900)
     if not ctx.need_go_ok(g, "C03 gRPC replay"):
         return
     if g.of_kind("error"):
